@@ -282,7 +282,16 @@ fn build_raw(rng: &mut StdRng, l: &Value) -> Built {
                 out
             };
             let rules = deal(rng, 1, &marks[1 .. 1 + nrules]);
-            let players = deal(rng, 2, &marks[1 + nrules ..]);
+            // (a server whose info count leaves the bots out sends its players reply in one datagram: `players_datagrams`)
+            let players = if lay["players_datagrams"].as_u64() == Some(1) {
+                let mut b = vec![0x80, 0, 0, 0, 2];
+                for m in &marks[1 + nrules ..] {
+                    b.extend(range(*m));
+                }
+                vec![b]
+            } else {
+                deal(rng, 2, &marks[1 + nrules ..])
+            };
             Built {
                 batches: vec![vec![info], rules, players],
                 tcp: false,
